@@ -28,6 +28,7 @@ let monitor_file (pid : string) (path : string) =
   let grants = Hashtbl.create 16 in             (* inst -> (callstart, lt) list *)
   let nsample = ref 0 and ngrant = ref 0 and nreprov = ref 0 and nfinal = ref 0 and slowcreate = ref 0 in
   let created = Hashtbl.create 4 in
+  let nshut = Hashtbl.create 4 and nstopret = Hashtbl.create 4 in
   let prefix = String.lowercase_ascii pid in
   List.iter (fun w ->
       match w with
@@ -61,7 +62,16 @@ let monitor_file (pid : string) (path : string) =
             hit (Printf.sprintf "%s:rt-count-never-released demand withdrawn, all leases run out, but Capacity()=%d stays above reserved=%d (%s)" prefix (ios c) !reserved s);
           let want = !reserved + (if !gen = 2 then min (ios sh) (!factor * 500) else ios sh) in
           if ios m <> want then hit (Printf.sprintf "%s:rt-max MaxCapacity()=%d, expected %d (%s)" prefix (ios m) want s)
+      | [t; s; "apipanic"; k] -> if pid = "C17" then hit (Printf.sprintf "c17:rt-panic %s() panicked at %s (%s)" k t s)
+      | [t; s; "stophang"] -> if pid = "C17" then hit (Printf.sprintf "c17:rt-stop-hang a Stop() call did not return within 3 s (%s, t=%s)" s t)
+      | [_; s; "ev"; "shutdown"] -> Hashtbl.replace nshut s (1 + (try Hashtbl.find nshut s with Not_found -> 0))
+      | [_; s; "stopret"] -> Hashtbl.replace nstopret s ()
       | _ -> ()) lines;
+  (* v1: concurrent Stop() calls at the end of the run: exactly one shutdown event for an instance whose Stop returned *)
+  if pid = "C17" && !gen = 1 then
+    Hashtbl.iter (fun s () ->
+        let n = (try Hashtbl.find nshut s with Not_found -> 0) in
+        if n <> 1 then hit (Printf.sprintf "c17:rt-shutdown-events %d shutdown events for instance %s after concurrent Stop() calls (expected 1)" n s)) nstopret;
   List.iter (fun h -> Printf.printf "MONITOR %s %s\n" path h) (List.rev !hits);
   Printf.printf "STATS %s sig=rt%d trivial=%d rtsamples=%d rtgrants=%d rtreprovisions=%d rtslowcreates=%d rtfinals=%d\n%!" path
     (Hashtbl.hash lines) (if !ngrant = 0 then 1 else 0) !nsample !ngrant !nreprov !slowcreate !nfinal
